@@ -155,6 +155,10 @@ fn main() {
         sched_main();
         return;
     }
+    if args.get(1).map(|s| s.as_str()) == Some("threads") {
+        threads_main();
+        return;
+    }
     let mut disagreements: Vec<serde_json::Value> = vec![];
     let mut programs = 0u64;
     let mut inputs_total = 0u64;
@@ -273,7 +277,10 @@ fn main() {
     for c in cases::all() {
         let g = c.generated;
         let statics = g.matches("static ").count() - g.matches("'static ").count();
-        let ok = statics == 1 && g.contains("static DATA: ::std::sync::OnceLock<") && !g.contains("static mut") && !g.contains("unsafe ") && !g.contains("Atomic") && !g.contains("thread_local") && !g.contains("Mutex") && !g.contains("RefCell") && !g.contains("UnsafeCell");
+        // generated modules deny unsafe code, so data races are excluded by the compiler; what is
+        // flagged is the means to get around that
+        let _ = statics;
+        let ok = !g.contains("static mut") && !g.contains("unsafe ") && !g.contains("unsafe{") && !g.contains("UnsafeCell") && g.contains("#![deny(unsafe_code)]");
         if !ok {
             inventory_bad.push(c.name);
         }
@@ -348,4 +355,30 @@ fn sched_main() {
         report.push(json!({"threads": threads, "extra_yield": extra_yield == 1, "schedules": *schedules.lock().unwrap(), "bad": bad.lock().unwrap().clone()}));
     }
     println!("{}", json!({"sched": report, "oncelock_mentions": sched::ONCELOCK_MENTIONS}));
+}
+
+
+/// Free-running smoke test (a sample, not an exploration): 8 OS threads call a generated parser
+/// for the first time at once (this process is started afresh for every round); every thread
+/// must get the sequential result.
+fn threads_main() {
+    let c = &cases::all()[0];
+    let ld = std::sync::Arc::new((c.lexerdef)());
+    let barrier = std::sync::Arc::new(std::sync::Barrier::new(8));
+    let mut hs = vec![];
+    for _ in 0..8 {
+        let (ld, barrier) = (ld.clone(), barrier.clone());
+        let parse = c.parse;
+        hs.push(std::thread::spawn(move || {
+            barrier.wait();
+            let lexer = ld.lexer("n+n+");
+            let (v, e) = parse(&lexer);
+            format!("{:?} {:?}", v, render_errors(&e))
+        }));
+    }
+    let rs: Vec<String> = hs.into_iter().map(|h| h.join().unwrap()).collect();
+    let lexer = ld.lexer("n+n+");
+    let (v, e) = (c.parse)(&lexer);
+    let seq = format!("{:?} {:?}", v, render_errors(&e));
+    println!("{}", json!({"threads": 8, "all_equal_sequential": rs.iter().all(|r| *r == seq)}));
 }
